@@ -35,7 +35,7 @@ ENCODED = [
     "menelaus.data_drift.nndvi:NNDVI.update",
 ]
 BOUNDS = {
-    "quick": "kdq: reference and test batch of <=3 symbolic rows (1-D and 2-D), every permutation of the test batch, every second permutation of the reference; HDM: reference 4 rows, "
+    "quick": "kdq: reference and test batch of <=3 symbolic rows (1-D and 2-D), every permutation of the test batch, every second permutation of the reference, cutpoint_proportion_lbound 0 and (2-D, coordinates in [0,4]) 0.5; HDM: reference 4 rows, "
              "test 3 rows of symbolic cells, 1-2 features, every permutation of the test batch and 5 of the reference, two "
              "consecutive batches; NNSP: samples of <=3+2 rows, every permutation; decision level: 3 batches, detect_batch=3",
     "thorough": "kdq reference <=4 rows with test batches <=3 rows (test permutations), reference permutations <=3 rows; NNSP 3+2 rows in 2-D",
@@ -53,12 +53,17 @@ def _perm(arr, p):
     return arr[list(p)]
 
 
-def body_kdq(ctx, n, m, d, which):
+def body_kdq(ctx, n, m, d, which, lbound=0, box=None):
     M = importlib.import_module("menelaus.partitioners.KDQTreePartitioner")
     R = c08._points(ctx, "r", n, d)
     T = c08._points(ctx, "t", m, d)
+    if box is not None:
+        # a positive cutpoint_proportion_lbound truncates lbound * range to an integer: coordinates are confined to a
+        # small box so that the truncation is a bounded case split
+        for v in list(R.reshape(-1)) + list(T.reshape(-1)):
+            ctx.assume(between(0, v, box))
     with rebind(M, np=c08._np_shim()):
-        base = M.KDQTreePartitioner(count_ubound=1, cutpoint_proportion_lbound=0)
+        base = M.KDQTreePartitioner(count_ubound=1, cutpoint_proportion_lbound=lbound)
         base.build(R)
         base.fill(T, "test")
         b0, t0 = base.leaf_counts("build"), base.leaf_counts("test")
@@ -68,7 +73,7 @@ def body_kdq(ctx, n, m, d, which):
                 ctx.prove(base.leaf_counts("test") == t0, "leaf-counts-invariant-under-test-row-order")
         else:
             for p in list(permutations(range(n)))[1::2]:  # every second permutation (incl. the full reversal)
-                other = M.KDQTreePartitioner(count_ubound=1, cutpoint_proportion_lbound=0)
+                other = M.KDQTreePartitioner(count_ubound=1, cutpoint_proportion_lbound=lbound)
                 other.build(_perm(R, p))
                 other.fill(T, "test")
                 ctx.prove(other.leaf_counts("build") == b0 and other.leaf_counts("test") == t0,
@@ -208,6 +213,11 @@ def jobs(tier):
                         continue
                     out.append(Job(f"kdq-d{d}-n{n}-m{m}-{which}", "checks.c18:body_kdq", {"n": n, "m": m, "d": d, "which": which},
                                    expect=("checked",), opts={"validate": 1}))
+    # minimum cell width in force (cutpoint_proportion_lbound > 0), coordinates in [0, 4]
+    for n, which in ((3, "test"), (2, "reference")) + (() if q else ((3, "reference"),)):
+        out.append(Job(f"kdq-d2-n{n}-m2-{which}-lbound", "checks.c18:body_kdq",
+                       {"n": n, "m": 2, "d": 2, "which": which, "lbound": 0.5, "box": 4}, expect=("checked",),
+                       opts={"validate": 1}))
     for features in (1, 2):
         for which in ("test", "reference"):
             for second in (False, True):
